@@ -1,6 +1,6 @@
 (* Non-vacuity: the hypotheses of the theorems are met by concrete,
    non-trivial instances, and the conclusions are visibly non-trivial. *)
-From V Require Import Common.Base C05.Syntax C05.Sem C05.Lower C05.Frame C05.LowerProofs C05.Witness.
+From V Require Import Common.Base C05.Syntax C05.Sem C05.Lower C05.Frame C05.LowerProofs C05.SimLogic C05.Steps C05.Witness.
 
 (* f() ?? g() : the left operand is captured in a temporary *)
 Definition ex_a := ECall (EId 3) [] OcNone.
@@ -69,3 +69,21 @@ Example ex_index_some :
   = Some (EBin BAnd (EIndex (EAssign (ETmp 0) ex_a) (EAssign (ETmp 1) ex_b) OcNone)
                     (EAssign (EIndex (ETmp 0) (ETmp 1) OcNone) (ENum 3)), 2).
 Proof. reflexivity. Qed.
+
+(* hypotheses of the general per-step theorems: v3[g(1)] ||= 3 with the constant
+   identifier v3 (uncaptured) and an effectful key (captured) *)
+Example ex_const_var : const_var Z wit_world 3.
+Proof. exists (Ok (VObj 100)). intro s. reflexivity. Qed.
+Example ex_not_const_var : ~ const_var Z wit_world 9.
+Proof. intros [r H]. specialize (H 0). discriminate H. Qed.
+Example ex_valid_target : valid_target Z wit_world (EIndex (EId 3) ex_b OcNone).
+Proof. split; [right; exact ex_const_var | left; reflexivity]. Qed.
+Example ex_below : below 0 (EIndex (EId 3) ex_b OcNone) /\ below 0 (ENum 3).
+Proof. split; intros j H; cbn in H; contradiction. Qed.
+Example ex_index_uncaptured :
+  lowerLogicalAsg all_features BOr (EIndex (EId 3) ex_b OcNone) (ENum 3) 0
+  = Some (EBin BOr (EIndex (EId 3) (EAssign (ETmp 0) ex_b) OcNone)
+                   (EAssign (EIndex (EId 3) (ETmp 0) OcNone) (ENum 3)), 1).
+Proof. reflexivity. Qed.
+Example ex_cap_ok_this : cap_ok Z wit_world EThis /\ cap_ok Z wit_world ex_a.
+Proof. split; [right; exact I | left; reflexivity]. Qed.
